@@ -94,6 +94,7 @@ type Machine struct {
 
 	// per-run statistics (features actually exercised)
 	MaxDepth  int
+	MaxVisits int
 	Jumps     int
 	Stats     map[string]int
 	StepLimit int // non-yielding statements per Next
@@ -348,6 +349,17 @@ func (m *Machine) Next(choice int) Outcome {
 			}
 			if cur := m.Prog.Find(m.Cur); cur != nil && cur.Tracking() != "never" {
 				m.Visits[m.Cur]++
+				if cur.Tracking() == "always" {
+					m.Stats["jump-leaves-tracking-always-node"]++
+				}
+				if m.Visits[m.Cur] > m.MaxVisits {
+					m.MaxVisits = m.Visits[m.Cur]
+				}
+			} else {
+				m.Stats["jump-leaves-untracked-node"]++
+			}
+			if len(m.stack) == 1 {
+				m.Stats["jump-from-top-level"]++
 			}
 			if len(m.stack) > 1 {
 				m.Stats["jump-out-of-nested-body"]++
